@@ -242,6 +242,32 @@ pub fn effect_obs(d: &Digest) -> EffObs {
     o
 }
 
+/// True if something ran at `pos` on thread `tid` *while that thread was the reducer context of
+/// store `s`*. Pool workers are reused: once the reducer loop has ended its thread may pick up
+/// queued effects, which is fine. The loop was still running at `pos` iff a later reducer-context
+/// event of that store (pipeline callback, or on_unsubscribe from the shutdown sweep) is logged on
+/// the same thread.
+pub fn in_reducer_context(d: &Digest, s: StoreIx, pos: Pos, tid: Tid) -> bool {
+    if d.stores[s].red_tid != Some(tid) {
+        return false;
+    }
+    for r in d.h.recs[pos + 1..].iter() {
+        if r.tid != tid {
+            continue;
+        }
+        let mine = match &r.ev {
+            Ev::MwIn { act, .. } | Ev::MwOut { act, .. } | Ev::RedIn { act, .. } | Ev::RedOut { act, .. } => d.store_of_act(*act) == s,
+            Ev::NotIn { sub, act, .. } | Ev::NotOut { sub, act, .. } => d.store_of_act(*act) == s && matches!(d.sub_kind(*sub), SubKind::Direct),
+            Ev::Unsub { sub } => d.stores[s].subs.iter().any(|(x, _)| x == sub),
+            _ => false,
+        };
+        if mine {
+            return true;
+        }
+    }
+    false
+}
+
 pub fn eff_spec(scn: &Scenario, id: EffId) -> Option<&EffSpec> {
     for a in &scn.actions {
         for (_, e) in &a.effects {
@@ -260,7 +286,6 @@ pub fn eff_spec(scn: &Scenario, id: EffId) -> Option<&EffSpec> {
 pub fn check_effects(d: &Digest, p: &PipeResult, followups_awaited: bool, viol: &mut Vec<String>, lost_after_stop: &mut Vec<(EffId, ActId)>) {
     let obs = effect_obs(d);
     for (s, runs) in p.runs.iter().enumerate() {
-        let sd = &d.stores[s];
         for (ri, r) in runs.iter().enumerate() {
             for e in &r.effects_returned {
                 let Some(spec) = eff_spec(d.scn, *e) else { continue };
@@ -300,7 +325,7 @@ pub fn check_effects(d: &Digest, p: &PipeResult, followups_awaited: bool, viol: 
                             lost_after_stop.push((*e, r.act));
                         }
                         for (pos, tid) in &starts {
-                            if Some(*tid) == sd.red_tid {
+                            if in_reducer_context(d, s, *pos, *tid) {
                                 viol.push(format!("effect {} of action {} ran in the reducer context (thread {})", e, r.act, tid));
                             }
                             if *pos < r.first {
